@@ -152,7 +152,15 @@ def dbLine (st : DBRun) (lineNo : Nat) (line : String) : Except String (DBRun ×
       let res ← parseRes (get "res")
       let gen ← (get "gen").toNat?
       pure (caller, op, res, gen) : Option _) with
-    | none => .error s!"line {lineNo}: cannot parse step"
+    | none =>
+      -- a call that panicked, or returned neither a result nor an error, is an observation: no
+      -- statement about the database admits it (C02: every result equals the model's; C01: an
+      -- ungranted call is refused with access-denied; C09: exactly four outcomes)
+      if (get "res").startsWith "PANIC" || (get "res").startsWith "BADRES" then
+        let what := s!"hist={st.hist} line={lineNo} op={get "op"} c={get "c"} n={(get "n").take 80} v={get "v"} res={(get "res").take 200}"
+        .ok ({ st with fails := st.fails + 3, steps := st.steps + 1 },
+             [s!"PROPFAIL C02 no_panic {what}", s!"PROPFAIL C01 result_is_specified {what}", s!"PROPFAIL C09 four_outcomes {what}"])
+      else .error s!"line {lineNo}: cannot parse step"
     | some (caller, op, res, gen) =>
       let entS := get "ent"
       let diskS := get "disk"
@@ -164,7 +172,14 @@ def dbLine (st : DBRun) (lineNo : Nat) (line : String) : Except String (DBRun ×
       let outSync : List String :=
         if get "synced" == "0" then
           [s!"PROPFAIL C06 synced_before_return {tag} op={get "op"} n={get "n"} res={get "res"} the call returned before the Sync of its record had completed"] else []
-      let out0 : List String := outSync ++
+      -- after a call whose save failed, a second server opened on a copy of the file (the pre-call
+      -- state) is given every later call too: the two must answer alike
+      let outTwin : List String :=
+        match lookup fs "twin" with
+        | some t => if t == get "res" then [] else
+            [s!"PROPFAIL C04 fault_leaves_served_state {tag} op={get "op"} n={(get "n").take 80} v={get "v"} res={(get "res").take 200} but a server started from the file the failed call left answers {t.take 200}"]
+        | none => []
+      let out0 : List String := outSync ++ outTwin ++
         (if ents?.isNone then [s!"PROPFAIL C06 record_wellformed {tag} ent={entS}"] else []) ++
         (if post?.isNone then [s!"PROPFAIL C03 disk_readable {tag} disk={diskS}", s!"PROPFAIL C04 disk_readable {tag} disk={diskS}"] else []) ++
         (if (get "res").startsWith "PANIC" then [s!"PROPFAIL C02 no_panic {tag} res={get "res"}"] else [])
@@ -217,6 +232,21 @@ def dbLine (st : DBRun) (lineNo : Nat) (line : String) : Except String (DBRun ×
                            cover := bump st.cover key,
                            clauseEvals := st.clauseEvals + clauses.length + corrClauses.length }
       .ok (st', out0 ++ failed ++ dv ++ c03)
+  | "restart" :: rest =>
+    -- a clean stop and restart between two calls: the new process must open the file and serve
+    -- exactly what is on it; the history (and the specification's numbering) goes on
+    let fs := fields rest
+    let get := fun k => (lookup fs k).getD ""
+    let tag := s!"hist={st.hist} line={lineNo}"
+    if get "ok" != "1" then
+      .ok ({ st with fails := st.fails + 2 },
+           [s!"PROPFAIL C03 restart_opens {tag} err={get "err"} state={showState st.cur}",
+            s!"PROPFAIL C02 restart_opens {tag} err={get "err"} state={showState st.cur}"])
+    else
+      let outs := if parseMem (get "mem") == some (memOf st.cur) then [] else
+        [s!"PROPFAIL C03 reopen_eq {tag} after a restart the server serves mem={get "mem"} file={showState st.cur}"]
+      .ok ({ st with cur := { st.cur with gen := (get "gen").toNat?.getD st.cur.gen }, fails := st.fails + outs.length,
+                     cover := bump st.cover "restart" }, outs)
   | ["auditstream", ok, probe] =>
     -- after a short write the log holds a fragment; no later record may be glued onto it
     if ok == "ok=1" then .ok (st, []) else
